@@ -369,6 +369,53 @@ theorem nonce_covers_window_today (ns : Nat) :
 
 /-! ### authorization-code grant -/
 
+/-- **where the session comes from (authorization request).** A session is created only for a request addressed to
+    this tenant's authorization server, with a non-empty PKCE challenge and method S256, for a configured scope; the
+    stored session carries exactly the request's client id, scope, challenge, this tenant, and the definitions
+    configured for that scope (nothing fulfilled yet); the fresh nonce is mapped to the fresh state. -/
+theorem authorize_request_only_if (cfg : Cfg) (w w' : World) (now : Nat) (r : AuthReq) (out : AuthReqOut)
+    (h : authorizeRequest cfg w now r = (w', .ok out)) :
+    r.redirectURI ≠ "" ∧ r.aud = cfg.issuerURL r.subject ∧ r.challenge ≠ "" ∧ r.method = "S256" ∧
+    ∃ defs, cfg.definitions r.scope = some defs ∧
+      out.state = stateName w.nextState ∧ out.nonce = nonceName w.nextNonce ∧
+      w'.states = w.states.put now cfg.stateTtl out.state
+        { clientId := r.clientId, scope := r.scope, ownSubject := r.subject, challenge := r.challenge,
+          method := "S256", clientState := r.clientState, consumer := ⟨defs, [], [], 0⟩ } ∧
+      w'.oauthNonces = w.oauthNonces.put now cfg.oauthNonceTtl out.nonce out.state ∧
+      w'.tokens = w.tokens ∧ w'.codes = w.codes := by
+  unfold authorizeRequest at h
+  split at h
+  · simp at h
+  · rename_i h1
+    split at h
+    · simp at h
+    · rename_i h2
+      split at h
+      · simp at h
+      · rename_i h3
+        split at h
+        · simp at h
+        · rename_i h4
+          split at h
+          · simp at h
+          · rename_i defs hdefs
+            simp only at h
+            split at h
+            · simp at h
+            · rename_i owner _
+              simp only [Prod.mk.injEq, Res.ok.injEq] at h
+              obtain ⟨hw, hout⟩ := h
+              subst hout
+              have hm : r.method = "S256" := by
+                by_cases hh : r.method = "S256"
+                · exact hh
+                · exact absurd (Or.inr hh) h4
+              refine ⟨h1, by simpa using h2, h3, hm, defs, hdefs, rfl, rfl, ?_, ?_, ?_, ?_⟩
+              · rw [← hw, hm]
+              · rw [← hw]
+              · rw [← hw]
+              · rw [← hw]
+
 /-- **token_only_if (authorize response, OpenID4VP verifier side).** An accepted `direct_post` submission implies:
     the state names a live session of this tenant, every presentation carries the same non-empty nonce/challenge
     and that nonce is mapped to exactly this state (and is deleted by this call), every presentation is signed by
@@ -488,6 +535,20 @@ private def demoAuth : AuthResp :=
     vps := [{ witnessVP with challenge := "nonce-1", nonce := "", expires := some 100000 }],
     submission := true, submissionOK := true, subDefId := "pd_org", pex := fun k => k == 0,
     claims := fun _ => [("org_name", "\"Care BV\"")] }
+
+/-- the same flow started by a real authorization request instead of a seeded session -/
+example : (run witnessCfg demoSha
+      [(100, .authreq { subject := "alpha", redirectURI := "https://client/cb", aud := "https://as/oauth2/alpha",
+                        clientId := "client", scope := "care", clientState := "cs", challenge := "the-challenge",
+                        method := "S256" }),
+       (100, .authreq { subject := "alpha", redirectURI := "https://client/cb", aud := "https://as/oauth2/alpha2",
+                        clientId := "client", scope := "care", clientState := "cs", challenge := "the-challenge",
+                        method := "S256" }),
+       (100, .authreq { subject := "alpha", redirectURI := "https://client/cb", aud := "https://as/oauth2/alpha",
+                        clientId := "client", scope := "care", clientState := "cs", challenge := "the-challenge",
+                        method := "plain" })] {}).2 =
+    [.authreq (.ok ⟨"st#0", "on#0", "organization"⟩), .authreq (.err "invalid_request/invalid-audience"),
+     .authreq (.err "invalid_request/invalid-code_challenge_method")] := by decide
 
 private def demoHistory : List (Nat × Op) :=
   [(100, .seed "st" "nonce-1" demoSession),
